@@ -439,6 +439,11 @@ func (c *V1) Do(op Op) (out Outcome) {
 			in.RequestItems[e.Table] = append(in.RequestItems[e.Table], wr)
 		}
 		res, err := c.callBatchWriteItem(in)
+		if op.ResendUnprocessed && err == nil && res != nil && len(res.UnprocessedItems) > 0 {
+			v1client.EmulateFailure(c.C, v1client.FailureConditionNone)
+			v1client.DeactiveForceFailure(c.C)
+			res, err = c.callBatchWriteItem(&v1ddb.BatchWriteItemInput{RequestItems: res.UnprocessedItems})
+		}
 		o := fin(err)
 		if res != nil {
 			for t, reqs := range res.UnprocessedItems {
